@@ -586,72 +586,10 @@ func checkC05(c *Ctx) {
 		r.Check(found && okk, "C05.12", "SCTPConn.Close: the underlying connection is closed on every path", f.Pos(), fnName(f), "s.conn.Close() is reached whatever any condition says",
 			"SCTPConn.Close can return without closing the DTLS / UDP transport under it (e.g. when the stream's Close fails because the association is already gone): the relay's teardown leaves the transport and its read goroutines open for good")
 	}
-	nArmed := 0
-	for _, f := range c.funcsOfPkgs("pkg/dtls") {
-		if f.Blocks == nil || strings.Contains(r.posStr(f.Pos()), "_test") {
-			continue
-		}
-		nm := f.Name()
-		armed := map[string]ssa.Instruction{}
-		eachInstr(f, func(in ssa.Instruction) {
-			call, ok := in.(*ssa.Call)
-			if !ok || !call.Call.IsInvoke() || call.Call.Method.Name() != "SetDeadline" {
-				return
-			}
-			if strings.Contains(pathOf(call.Call.Args[0]), ".Deadline()") {
-				armed[pathOf(call.Call.Value)] = in
-			}
-		})
-		nArmed += len(armed)
-		for conn, arm := range armed {
-			conn := conn
-			isClear := func(in ssa.Instruction) bool {
-				call, ok := in.(*ssa.Call)
-				if !ok || !call.Call.IsInvoke() || call.Call.Method.Name() != "SetDeadline" || pathOf(call.Call.Value) != conn {
-					if ok && !call.Call.IsInvoke() {
-						// a helper of the package that clears the deadline of the connection it is handed
-						if hc := helperCallee(f, &call.Call); hc != nil {
-							for i, a := range call.Call.Args {
-								if pathOf(a) != conn || i >= len(hc.Params) {
-									continue
-								}
-								hit := false
-								eachInstr(hc, func(in2 ssa.Instruction) {
-									if c2, ok := in2.(*ssa.Call); ok && c2.Call.IsInvoke() && c2.Call.Method.Name() == "SetDeadline" && c2.Call.Value == ssa.Value(hc.Params[i]) && isZeroTime(c2.Call.Args[0]) {
-										hit = true
-									}
-								})
-								if hit {
-									return true
-								}
-							}
-						}
-					}
-					return false
-				}
-				return isZeroTime(call.Call.Args[0])
-			}
-			isOK := func(in ssa.Instruction) bool {
-				ret, ok := in.(*ssa.Return)
-				if !ok || len(ret.Results) != 2 {
-					return false
-				}
-				cst, isC := returnedValue(ret, 1, nil).(*ssa.Const)
-				return isC && cst.Value == nil
-			}
-			left, w := reach(f, arm, isOK, isClear, nil)
-			if left {
-				r.Bad("C05.12", nm+": the handshake deadline on "+conn+" is cleared before a successful return", arm.Pos(), fnName(f),
-					"a successful return is reachable with the context's absolute deadline still armed on "+conn+": a few seconds into the tunnel its reads time out, the DTLS connection is closed and the rest of the client's stream is lost although both peers are alive", r.blockPath(f, w)...)
-			} else {
-				r.OK("C05.12", nm+": the handshake deadline on "+conn+" is cleared before a successful return", arm.Pos(), "SetDeadline(time.Time{}) on the same connection on every path to a nil-error return")
-			}
-		}
-	}
-
-	if nArmed == 0 {
-		r.Unk("C05.12", "pkg/dtls: deadline armed from the handshake context", token.NoPos, "", "no SetDeadline(ctx.Deadline()) found in the package")
-	}
+	checkHandshakeDeadlines(c, "C05.12")
+	// ---- C05.13 the DTLS client connection delivers what it received before it reports the close (shared with C16.12)
+	r.Rule("C05.13", "hbConn.Read drains its queue before it reports the close", 1)
+	checkDrainBeforeClosed(c, "C05.13")
 
 	// ---- C05.10 the open-session gauge is a count, not an epoch statistic: it moves by +1 / -1 in addSession /
 	// removeSession only; nothing stores into it and nothing overwrites the statistics object as a whole
@@ -1243,4 +1181,120 @@ func isZeroTime(v ssa.Value) bool {
 		}
 	}
 	return false
+}
+
+// checkHandshakeDeadlines (C05.12, C16.11): a deadline armed on a connection from the handshake context is cleared on
+// that same connection before every successful return.
+func checkHandshakeDeadlines(c *Ctx, rule string) {
+	r := c.R
+	nArmed := 0
+	for _, f := range c.funcsOfPkgs("pkg/dtls") {
+		if f.Blocks == nil || strings.Contains(r.posStr(f.Pos()), "_test") {
+			continue
+		}
+		nm := f.Name()
+		armed := map[string]ssa.Instruction{}
+		eachInstr(f, func(in ssa.Instruction) {
+			call, ok := in.(*ssa.Call)
+			if !ok || !call.Call.IsInvoke() || call.Call.Method.Name() != "SetDeadline" {
+				return
+			}
+			if strings.Contains(pathOf(call.Call.Args[0]), ".Deadline()") {
+				armed[pathOf(call.Call.Value)] = in
+			}
+		})
+		nArmed += len(armed)
+		for conn, arm := range armed {
+			conn := conn
+			isClear := func(in ssa.Instruction) bool {
+				call, ok := in.(*ssa.Call)
+				if !ok || !call.Call.IsInvoke() || call.Call.Method.Name() != "SetDeadline" || pathOf(call.Call.Value) != conn {
+					if ok && !call.Call.IsInvoke() {
+						// a helper of the package that clears the deadline of the connection it is handed
+						if hc := helperCallee(f, &call.Call); hc != nil {
+							for i, a := range call.Call.Args {
+								if pathOf(a) != conn || i >= len(hc.Params) {
+									continue
+								}
+								hit := false
+								eachInstr(hc, func(in2 ssa.Instruction) {
+									if c2, ok := in2.(*ssa.Call); ok && c2.Call.IsInvoke() && c2.Call.Method.Name() == "SetDeadline" && c2.Call.Value == ssa.Value(hc.Params[i]) && isZeroTime(c2.Call.Args[0]) {
+										hit = true
+									}
+								})
+								if hit {
+									return true
+								}
+							}
+						}
+					}
+					return false
+				}
+				return isZeroTime(call.Call.Args[0])
+			}
+			isOK := func(in ssa.Instruction) bool {
+				ret, ok := in.(*ssa.Return)
+				if !ok || len(ret.Results) != 2 {
+					return false
+				}
+				cst, isC := returnedValue(ret, 1, nil).(*ssa.Const)
+				return isC && cst.Value == nil
+			}
+			left, w := reach(f, arm, isOK, isClear, nil)
+			if left {
+				r.Bad(rule, nm+": the handshake deadline on "+conn+" is cleared before a successful return", arm.Pos(), fnName(f),
+					"a successful return is reachable with the context's absolute deadline still armed on "+conn+": a few seconds into the tunnel its reads time out, the DTLS connection is closed and the rest of the client's stream is lost although both peers are alive", r.blockPath(f, w)...)
+			} else {
+				r.OK(rule, nm+": the handshake deadline on "+conn+" is cleared before a successful return", arm.Pos(), "SetDeadline(time.Time{}) on the same connection on every path to a nil-error return")
+			}
+		}
+	}
+
+	if nArmed == 0 {
+		r.Unk(rule, "pkg/dtls: deadline armed from the handshake context", token.NoPos, "", "no SetDeadline(ctx.Deadline()) found in the package")
+	}
+
+}
+
+// checkDrainBeforeClosed (C05.13, C16.12): hbConn.Read reports "closed" only when nothing is queued: the blocking wait
+// that includes the closed channel is preceded by a non-blocking attempt on the receive queue.
+func checkDrainBeforeClosed(c *Ctx, rule string) {
+	r := c.R
+	f := c.fn(rule, "pkg/dtls", "hbConn", "Read")
+	if f == nil {
+		return
+	}
+	var blocking, poll *ssa.Select
+	eachInstr(f, func(in ssa.Instruction) {
+		sel, ok := in.(*ssa.Select)
+		if !ok {
+			return
+		}
+		hasClosed, hasQueue := false, false
+		for _, st := range sel.States {
+			if strings.HasSuffix(pathOf(st.Chan), ".closed") {
+				hasClosed = true
+			}
+			if strings.HasSuffix(pathOf(st.Chan), ".recvCh") {
+				hasQueue = true
+			}
+		}
+		if sel.Blocking && hasClosed {
+			blocking = sel
+		}
+		if !sel.Blocking && hasQueue && !hasClosed {
+			poll = sel
+		}
+	})
+	if blocking == nil {
+		r.Unk(rule, "hbConn.Read: wait on the closed channel", f.Pos(), fnName(f), "no blocking select with the closed channel found")
+		return
+	}
+	okk := false
+	if poll != nil {
+		skip, _ := reach(f, nil, isInstr(blocking), isInstr(poll), nil)
+		okk = !skip
+	}
+	r.Check(okk, rule, "hbConn.Read: queued messages are delivered before the close is reported", blocking.Pos(), fnName(f), "a non-blocking receive from recvCh precedes the wait that includes closed",
+		"Read chooses between a queued message and the closed channel in one select: once the connection has closed, the runtime picks at random, so messages that were received before the close (the tail of the client's upload) are dropped and the reader is told 'closed'")
 }
